@@ -636,6 +636,25 @@ func (f *flight) applyFault(e *env) bool {
 				f.add(mark{class: fault, kind: "body_added", oracle: "refuse_tamper", codes: []int{400, 401}})
 				return true
 			}
+			if t.Chance(250) && len(f.body) > 2 && f.body[0] == '{' && f.body[len(f.body)-1] == '}' && f.body[1] == '"' {
+				// the first member's name once more at the END of the object,
+				// with another value: readers that keep the last occurrence
+				// (encoding/json, i.e. the handlers the body is meant for) see
+				// a body that was not signed
+				j := 2
+				for j < len(f.body) && f.body[j] != '"' {
+					if f.body[j] == '\\' {
+						j++
+					}
+					j++
+				}
+				if j < len(f.body) {
+					first := string(f.body[1 : j+1])
+					f.body = []byte(string(f.body[:len(f.body)-1]) + "," + first + ":" + sim.Pick(t, []string{`"injected"`, "1000", `{"admin":true}`, "null"}) + "}")
+					f.add(mark{class: fault, kind: "body_member_repeated_at_the_end", oracle: "refuse_tamper", codes: []int{400, 401}})
+					return true
+				}
+			}
 			if t.Chance(300) {
 				// the signed value followed by something else: not the body
 				// that was signed, and not one JSON value either
